@@ -179,4 +179,93 @@ def repeatSheet (r c : Nat) : List OdsRow := [⟨r, [⟨c, false, 1⟩]⟩]
 def staircaseSheet (n : Nat) : List OdsRow :=
   ⟨1, List.replicate n ⟨1, false, 1⟩⟩ :: List.replicate n ⟨1, [⟨1, false, 1⟩]⟩
 
+/-! ### TAR member loop with link members (`_extract_from_tar_optimized`)
+
+A hard-link / symbolic-link entry has its OWN header (size field 0 when written by `tarfile`, but any value can be
+forged) while `TarFile.extractfile(link)` follows the link and hands out the bytes of the member it points at.
+So the size the loop tests (`member.size`) and the bytes the loop reads are two different things unless the
+member-type guard lets only regular members through. -/
+
+inductive TarKind | reg | hardlink | symlink | dir | special
+deriving Repr, DecidableEq
+
+def TarKind.name : TarKind → String
+  | .reg => "reg" | .hardlink => "hardlink" | .symlink => "symlink" | .dir => "dir" | .special => "special"
+
+def TarKind.ofString : String → Option TarKind
+  | "reg" => some .reg | "hardlink" => some .hardlink | "symlink" => some .symlink
+  | "dir" => some .dir | "special" => some .special | _ => none
+
+structure TarMember where
+  size : Nat               -- `member.size`: the size field of the member's own header
+  kind : TarKind           -- `isreg()` ⇔ kind = reg; `islnk()` ⇔ hardlink; `issym()` ⇔ symlink
+  delivers : Option Nat    -- `len(tf.extractfile(member).read())`; `none`: extractfile returns None or raises
+deriving Repr, DecidableEq
+
+/-- the one fact about `tarfile` the bound needs: a REGULAR member's handle never delivers more than the size in
+    the member's own header (a truncated archive delivers less).  Nothing is assumed about links. -/
+def TarFaithful (ms : List TarMember) : Prop :=
+  ∀ m ∈ ms, m.kind = .reg → ∀ n, m.delivers = some n → n ≤ m.size
+
+/-- the documented member-type guard `if not member.isreg(): continue` -/
+def onlyReg : TarKind → Bool
+  | .reg => true | _ => false
+
+/-- the guard as the translator found it: (kind name, gets past the guard); a kind missing from the table counts
+    as accepted (worst case) -/
+def acceptOfTable (t : List (String × Bool)) (k : TarKind) : Bool :=
+  match t.find? (·.1 == k.name) with
+  | some (_, b) => b
+  | none => true
+
+/-- position of an event in the generated event list (`events.length` when absent) -/
+def eventBefore (events : List String) (a b : String) : Bool :=
+  events.contains a && events.contains b && decide (events.idxOf a < events.idxOf b)
+
+/-- the member loop: lengths of the byte strings `extractfile(member).read()` hands to the process, in order.
+    `sizeTestFirst = false` models a loop that reads before it tests the size. -/
+def tarLoopDelivered (o : Ops) (accept : TarKind → Bool) (sizeTestFirst : Bool) (limit : Nat) (ms : List TarMember) : List Nat :=
+  ms.filterMap (fun m =>
+    if accept m.kind && !(sizeTestFirst && memberSkipped o .tar limit m.size) then m.delivers else none)
+
+/-- uncompressed payload of the archive: the sizes of the regular members -/
+def tarPayload (ms : List TarMember) : Nat := ((ms.filter (·.kind = .reg)).map (·.size)).sum
+
+/-! ### ODS rows with `table:covered-table-cell` children
+
+The row loop is `for cell in row.findall("table:table-cell", NS)`: covered cells (the cells hidden by a merged
+neighbour) are not visited at all, whatever their `table:number-columns-repeated` says. -/
+
+inductive OdsChild
+  | cell (c : OdsCell)
+  | covered (rep : Int)
+deriving Repr, DecidableEq
+
+def OdsChild.cell? : OdsChild → Option OdsCell
+  | .cell c => some c
+  | .covered _ => none
+
+def OdsChild.coveredRep? : OdsChild → Option Int
+  | .cell _ => none
+  | .covered r => some r
+
+structure OdsRowC where
+  rep : Int
+  children : List OdsChild
+deriving Repr, DecidableEq
+
+/-- the `table:table-cell` children, in order (what `findall` returns) -/
+def childCells (cs : List OdsChild) : List OdsCell := cs.filterMap (·.cell?)
+
+def OdsRowC.toRow (r : OdsRowC) : OdsRow := ⟨r.rep, childCells r.children⟩
+
+def sheetShapeC (rows : List OdsRowC) : Nat × Nat := sheetShape (rows.map (·.toRow))
+def sheetCellsC (rows : List OdsRowC) : Nat := sheetCells (rows.map (·.toRow))
+def materialisedC (rows : List OdsRowC) : Nat := materialised (rows.map (·.toRow))
+
+/-- byte length of the harness's canonical `content.xml` with covered cells -/
+def xmlLenC (envelope rowTags emptyCellTags textCellTags coveredTags : Nat) (rows : List OdsRowC) : Nat :=
+  xmlLen envelope rowTags emptyCellTags textCellTags (rows.map (·.toRow)) +
+  (rows.map (fun r => ((r.children.filterMap (·.coveredRep?)).map (fun n => coveredTags + intLen n)).sum)).sum
+
 end S2T.Limits
